@@ -111,6 +111,17 @@ STRINGS = [
 STRINGS_NUL = [("nul then digit", "a\x007"), ("nul", "a\x00b")]
 
 
+# literals given in their QML spelling: (label, QML literal, denoted string or None when the spelling denotes no string; a spelling may always be rejected)
+RAW_LITERALS = [
+    ("surrogate pair escapes", '"\\uD83D\\uDE00"', "\U0001F600"), ("braced astral escape", '"\\u{1F600}"', "\U0001F600"), ("lone high surrogate", '"a\\uD83Db"', None),
+    ("lone low surrogate", '"a\\uDE00b"', None), ("escape beyond U+10FFFF", '"\\u{110000}"', None), ("braced surrogate", '"\\u{D83D}\\u{DE00}"', "\U0001F600"),
+    ("surrogate halves meeting by folding", '"\\uD83D" + "\\uDE00"', "\U0001F600"), ("hex escape", '"\\x41\\x7e"', "A~"), ("latin-1 hex escape", '"\\xe9"', "é"),
+    ("legacy octal escape", '"\\101"', "A"), ("nul escape", '"a\\0"', "a\x00"), ("line continuation", '"a\\\nb"', "ab"), ("single quoted", "'it\\'s'", "it's"),
+    ("escaped solidus", '"a\\/b"', "a/b"), ("short unicode escape", '"\\u41"', None), ("four digit escape then digit", '"\\u00411"', "A1"), ("empty braced escape", '"\\u{}"', None),
+    ("vertical tab escape", '"\\v"', "\x0b"), ("backspace escape", '"\\b"', "\x08"), ("form feed escape", '"\\f"', "\x0c"),
+]
+
+
 def js_literal(s):
     o = '"'
     for ch in s:
@@ -137,9 +148,24 @@ def js_literal(s):
 def strings_leg(chk, classes):
     """each literal in a QStringLiteral (binding), in a console.log C string and as qsTr source; compiled, run, read back"""
     cases = STRINGS + STRINGS_NUL
+    lits = {}
+    # raw spellings: only those the translator accepts take part (a spelling that denotes no string must not be accepted)
+    rq = [{"id": n, "src": P.HEAD + "  TSource { id: s0\n    text: a.text + %s\n  }\n}\n" % lit, "type_name": "Doc", "modes": ["generate"]} for n, (_, lit, _) in enumerate(RAW_LITERALS)]
+    rres = translate(rq, metatypes=[VERIF_METATYPES], procs=1)
+    raw_problems = []
+    for n, (what, lit, val) in enumerate(RAW_LITERALS):
+        r_ = rres[n]["generate"]
+        chk.count({"raw literal": lit}, nontrivial=True)
+        if r_.get("panic") or not P.is_accepted(r_) or r_.get("syntax_error"):
+            continue
+        if val is None:
+            raw_problems.append(("value", what, lit, rq[n]["src"], r_.get("header"), "the spelling %s denotes no string but is accepted" % lit))
+            continue
+        cases = cases + [(what, val)]
+        lits[len(cases) - 1] = lit
     q = P.HEAD
     for i, (_, s) in enumerate(cases):
-        lit = js_literal(s)
+        lit = lits.get(i) or js_literal(s)
         q += "  TSource { id: s%d\n    text: a.text + %s\n    onPlain: { console.log(%s); a.actText(%s) }\n    textB: a.flag ? qsTr(%s) : a.text\n  }\n" % (i, lit, lit, lit, lit)
     q += "}\n"
     res = translate([{"id": "s", "src": q, "type_name": "Doc", "modes": ["generate"]}], metatypes=[VERIF_METATYPES], procs=1)
@@ -166,7 +192,7 @@ def strings_leg(chk, classes):
         # find which literals break the translation unit: compile each alone
         culprits = []
         for i, (what, s) in enumerate(cases):
-            lit = js_literal(s)
+            lit = lits.get(i) or js_literal(s)
             q1 = P.HEAD + "  TSource { id: s0\n    text: a.text + %s\n    onPlain: { console.log(%s) }\n    textB: a.flag ? qsTr(%s) : a.text\n  }\n}\n" % (lit, lit, lit)
             r1 = translate([{"id": "s", "src": q1, "type_name": "Doc", "modes": ["generate"]}], metatypes=[VERIF_METATYPES], procs=1)["s"]["generate"]
             st, st2, e1 = compile_header(chk, "str%d" % i, "Doc", r1["header"], r1["ui"])
@@ -197,7 +223,7 @@ def strings_leg(chk, classes):
             exp_ev = ["log:debug " + mock_jstr(s), "a.actText(" + mock_jstr(s) + ")"]
             if evs != exp_ev:
                 problems.append(("value", what, s, "console.log / call argument: expected %s got %s" % (exp_ev, evs)))
-    return [(k, what, s, q, run["header"], msg) for k, what, s, msg in problems]
+    return [(k, what, s, q, run["header"], msg) for k, what, s, msg in problems] + raw_problems
 
 
 def mock_jstr(s):
